@@ -83,7 +83,7 @@ template <template <class> class QT> struct Row {
   template <class T2> static void cast_to(int via, const Q& src, VfLD* out) {
     using Q2 = QT<T2>;
     if (via == 0) { Q2 r(src); flat(r, out); }
-    else { VfLD z[9] = {0, 0, 0, 0, 0, 0, 0, 0, 0}; Q2 r = make<Q2, T2>(z); r = src; flat(r, out); }
+    else { VfLD z[9] = {7, -3, 5, 11, -13, 2, 17, -19, 23}; Q2 r = make<Q2, T2>(z); r = src; flat(r, out); }   // the target already holds a value: assignment must replace it
   }
   static void cast(int to_nt, int via, const VfLD* in, VfLD* stored_src, VfLD* out) {
     const Q src = make<Q, T>(in); flat(src, stored_src);
